@@ -54,6 +54,7 @@ func init() {
 		nil, func(c *Ctx) {
 			withAnchors(c, func(a *serverAnchors) {
 				ruleDrainShape(c, a.cacheA)
+				ruleNoWaitUnderLock(c)
 				ruleLocksNotCopied(c)
 				ruleCompletionPaths(c, a.cacheA, set("completes-on-every-path", "locked"))
 				ruleLookup(c, a.cacheA, set("state-determined", "invariant-expiry", "invariant-waiters", "no-waiter-dropped", "no-exit-unknown", "registration"))
@@ -122,6 +123,10 @@ func init() {
 				ruleStoreWriteOrdered(c)
 				ruleTypedNilStore(c)
 				ruleStoreKeyAgreement(c)
+				ruleStoreExactKey(c)
+				ruleStoreRegistryKey(c)
+				ruleCacheMiddleware(c, a, set("hit-age", "hit-serves-stored"))
+				ruleResponder(c, a)
 				ruleRawProvenance(c)
 			})
 		})
@@ -136,6 +141,9 @@ func init() {
 				rulePurge(c, a.cacheA)
 				ruleDecodersNoPanic(c, map[string]bool{"cache": true})
 				ruleDecoderBounds(c, map[string]bool{"cache": true})
+				ruleEmptyResponseSection(c)
+				ruleCompletionNoNilDeref(c, a.cacheA)
+				ruleStoreRegistryKey(c)
 				ruleStoreSiblings(c)
 				ruleStoreOpenNonFatal(c)
 				ruleTypedNilStore(c)
@@ -153,6 +161,8 @@ func init() {
 				ruleShardFunction(c)
 				ruleStoreKeys(c)
 				ruleStoreKeyAgreement(c)
+				ruleStoreExactKey(c)
+				ruleStoreSiblings(c)
 				ruleEntryWriters(c, a.cacheA)
 				ruleEntryContainers(c, a.cacheA)
 				ruleCacheMiddleware(c, a, set("entry-of-request-key", "hit-serves-stored"))
@@ -180,6 +190,8 @@ func init() {
 				ruleStoreWriteOrdered(c)
 				ruleAdminPurge(c)
 				ruleStoreKeyAgreement(c)
+				ruleStoreExactKey(c)
+				ruleCacheMiddleware(c, a, set("ticket-discharge"))
 				ruleForwarders(c, "cache")
 				ruleShardFunction(c)
 				ruleEntryWriters(c, a.cacheA)
@@ -200,7 +212,7 @@ func init() {
 				ruleDecodersReadAll(c)
 				rulePooledBytes(c)
 				ruleLZ4Bound(c)
-				ruleProxyMiddleware(c, a, set("response-built", "location-edits-order"))
+				ruleProxyMiddleware(c, a, set("response-built", "location-edits-order", "proxy-deadline"))
 				ruleCacheMiddleware(c, a, set("hit-serves-stored"))
 				ruleKey(c)
 				ruleResponder(c, a)
@@ -236,6 +248,8 @@ func init() {
 			ruleForwarders(c, "compress")
 			ruleEncodingNames(c)
 			ruleDecoderOptions(c)
+			ruleDecodersNoPrefilter(c)
+			ruleResultBeforeError(c, map[string]bool{"compress": true})
 			ruleDecodersNoPanic(c, map[string]bool{"compress": true})
 			ruleDecoderBounds(c, map[string]bool{"compress": true})
 		})
@@ -252,6 +266,7 @@ func init() {
 			withAnchors(c, func(a *serverAnchors) {
 				ruleStoreLoadAtomic(c, a.cacheA)
 			})
+			ruleEmptyResponseSection(c)
 		})
 	register("C14",
 		"Decides that Match is exactly (no hosts or host listed) and (no prefixes or some prefix of the URI) and depends on nothing else; that the four specificity classes get strictly increasing, non-zero priorities in the order prefix+host < prefix < host < none; that the list is sorted ascending by that priority (comparator over the very slice being sorted) before it is published under the write lock; that only an element of the sorted list whose name is one of the server's own names and which matches is returned, with the sorted list as the outer loop; that the proxy resolves with the request's Host and request URI and fails with a 5xx before any upstream contact when no location or upstream is found.",
@@ -278,6 +293,8 @@ func init() {
 				ruleLocationEdits(c)
 				ruleQueryEdits(c)
 				ruleRewriteWildcards(c)
+				ruleRewriteMatch(c)
+				ruleRewriteSource(c)
 				ruleChainOrder(c, a)
 			})
 		})
@@ -300,6 +317,9 @@ func init() {
 			})
 			ruleListenFlag(c)
 			ruleServerClose(c)
+			ruleLoopClosures(c)
+			ruleConfigClients(c)
+			ruleDestroyOnlyStops(c)
 			ruleStoreCloseOwner(c)
 			ruleServersStartAll(c)
 			ruleForwarders(c, "cache", "location", "server", "compress")
@@ -314,6 +334,8 @@ func init() {
 				ruleConverters(c)
 				ruleForwarders(c, "upstream")
 				ruleLibrarySlices(c)
+				ruleStatusCallbackNonBlocking(c)
+				ruleDestroyOnlyStops(c)
 				ruleTargetPicker(c)
 				ruleUpstreamSwap(c)
 				ruleProxyMiddleware(c, a, set("proxy-resolution", "forward-once"))
@@ -325,6 +347,7 @@ func init() {
 			ruleValidateRefs(c)
 			ruleRequiredRefs(c)
 			ruleConfigClients(c)
+			ruleLinearizableConfigRead(c)
 			withAnchors(c, func(a *serverAnchors) {
 				ruleProxyMiddleware(c, a, set("proxy-resolution"))
 				ruleCacheMiddleware(c, a, set("cache-binding"))
@@ -349,6 +372,10 @@ func init() {
 				ruleRegistriesTyped(c)
 				ruleErrorsImmutable(c)
 				ruleLocksNotCopied(c)
+				ruleLoopClosures(c)
+				ruleNoWaitUnderLock(c)
+				ruleQueryEdits(c)
+				ruleCtorUpdateAgree(c)
 				ruleLibrarySlices(c)
 				ruleWatchEveryWrite(c)
 				ruleLockedWrapper(c, a.cacheA)
